@@ -72,17 +72,6 @@ var c05SysSets = []string{
 
 const c05SysUnion = "openat,write,pwrite64,rename,renameat,renameat2,fsync,fdatasync,ftruncate,unlink,unlinkat"
 
-func c05SysSetOf(name string) string {
-	for _, s := range c05SysSets {
-		for _, x := range strings.Split(s, ",") {
-			if x == name {
-				return s
-			}
-		}
-	}
-	return ""
-}
-
 // ---------------------------------------------------------------- child
 
 func c05SysMarker(num int, before bool) {
@@ -129,7 +118,7 @@ type c05SysEvent struct {
 	Path2  string // rename: source
 	Kind   string // kind of file (see c05SysFileKind)
 	InDir  bool
-	Marker int // >0: B num+1, <0: -(A num+1); 0: not a marker
+	Marker int  // >0: B num+1, <0: -(A num+1); 0: not a marker
 	Killed bool // the call ended with "= ?" (process died inside / on entering it)
 	Line   string
 }
@@ -440,7 +429,7 @@ func TestVerifC05SyscallKill(t *testing.T) {
 	if nplans > len(plans) {
 		nplans = len(plans)
 	}
-	budget := kit.Scale(210, 3000)
+	budget := kit.Scale(210, 2400)
 	perCombo := kit.Scale(2, 12)
 	workers := kit.EnvInt("VERIF_WORKERS", 10)
 
@@ -602,7 +591,7 @@ func TestVerifC05SyscallKill(t *testing.T) {
 			rep.Inconc(fmt.Sprintf("trace of the killed child of plan %d (inject=%s) does not show the injected call", c.Plan, inject))
 			return
 		}
-		if !started {
+		if !started || (inOp == 0 && afterOp == 0) {
 			mu.Lock()
 			startup++
 			mu.Unlock()
